@@ -7,7 +7,7 @@ From Pika Require Import Base.Conc Model.IndexQueue Proofs.IndexQueueProofs.
 From Pika Require Import Model.DequeSpec Model.Deque Model.DequeWitness Proofs.DequeProofs.
 From Pika Require Import Proofs.DequeSafetyProofs.
 From Pika Require Import Model.DequeLin Proofs.DequeConcDefs Proofs.DequeLinProofs.
-From Pika Require Proofs.DequeAbaDefs Proofs.DequeAbaLin.
+From Pika Require Proofs.DequeAbaDefs Proofs.DequeAbaLin Proofs.DequeQuiesce.
 From Pika Require Import Gen.GenBackends Model.Backends Proofs.BackendsProofs.
 Import ListNotations.
 Local Open Scope N_scope.
@@ -273,6 +273,33 @@ Theorem C17_deque_empty_pop : forall t g (ls : locals dq_local) c pend s,
   c = [] /\ al (anc g) = 0 /\ ar (anc g) = 0.
 Proof. exact DequeAbaLin.deque_empty_pop_lemma. Qed.
 Print Assumptions C17_deque_empty_pop.
+
+(* quiescence: whenever all threads are done (every operation of every program has returned) the
+   anchor is STABLE — although a pusher may return while the status is still rpush/lpush (its link
+   CAS fails when a helper was faster), some thread inside stabilize with a current snapshot is then
+   still on its way to the anchor CAS ([DequeQuiesce.Resp]) —, nothing is in flight, and the values
+   that a walk from the left end along the right links reads ([dq_contents]) are exactly the final
+   list of the linearization history; pushed = popped + contents as multisets; the linearization
+   agrees per thread with what the threads reported *)
+Theorem C17_deque_quiescent : forall k progs sched,
+  let ci := dq_run_i sched k progs in
+  let g := fst (dq_run sched k progs) in let ls := snd (dq_run sched k progs) in
+  let lin := glin (snd (fst ci)) in
+  (forall t, dq_done (ls t) = true) ->
+  ast (anc g) = Stable /\
+  exists n, spec_run (log_ops lin) [] = (log_res lin, dq_contents n g) /\
+    Permutation (pushed_vals (dlog g)) (popped_vals (dlog g) ++ dq_contents n g) /\
+    (forall t, of_tid t lin = of_tid t (dlog g)).
+Proof. exact DequeQuiesce.deque_quiescent_lemma. Qed.
+Print Assumptions C17_deque_quiescent.
+
+(* the invariant behind it is preserved by every step of every thread: if the status is not stable
+   some thread stands in stabilize with a current snapshot and (at the link CAS) a current expected value *)
+Theorem C17_deque_unstable_has_stabilizer : forall t g (ls : locals dq_local) c pend,
+  DequeAbaDefs.Core g ls c pend -> DequeQuiesce.Resp g ls ->
+  DequeQuiesce.Resp (fst (dq_tstep tt t g (ls t))) (upd ls t (snd (dq_tstep tt t g (ls t)))).
+Proof. exact DequeQuiesce.resp_step. Qed.
+Print Assumptions C17_deque_unstable_has_stabilizer.
 
 (* non-vacuity: three threads, ten operations on both ends, pool of one chunk: chunks ARE re-allocated
    ([greuse] = true, three chunks serve six pushes) *)
